@@ -1,4 +1,89 @@
+/-
+C13 (service slice) — begin/end block never halts and handles each due item exactly once.
+
+Queue hygiene of the service scheduler, as `Prop` invariants for `Props/C13_Service.lean`
+and as the executable monitor of the driver (`monitor C13`):
+  * every queue entry `(h, id)` has its per-context height marker and vice versa (so a context
+    has at most one entry per queue), refers to a stored context and is not in the past;
+  * every context with a running batch awaits its expiry (expired-batch entry), every running
+    context without one awaits its next batch (new-batch entry);
+  * an end block removes exactly the entries of its height.
+Known defect class: F-svc-3 (new-batch entry kept when no exchange rate is available).
+-/
 import Irismod.Model.Service
 
-namespace Irismod.Spec.C13_Service
-end Irismod.Spec.C13_Service
+namespace Irismod.Spec.C13S
+open Irismod Irismod.Sdk Irismod.Service
+
+/-! ### invariants -/
+
+/-- entries and markers of one queue describe the same set -/
+def MarkersAgree (q : List (Int × CtxId)) (m : AMap CtxId Int) : Prop :=
+  (∀ h id, (h, id) ∈ q → AMap.get? m id = some h) ∧ (∀ id h, AMap.get? m id = some h → (h, id) ∈ q)
+
+/-- no queue entry lies in the past (it would never be processed) -/
+def NoStale (s : State) : Prop :=
+  (∀ h id, (h, id) ∈ s.newQ → s.height ≤ h) ∧ (∀ h id, (h, id) ∈ s.expQ → s.height ≤ h)
+
+/-- queue entries refer to stored contexts -/
+def EntriesLive (s : State) : Prop :=
+  (∀ h id, (h, id) ∈ s.newQ → AMap.contains s.ctxs id = true) ∧
+  (∀ h id, (h, id) ∈ s.expQ → AMap.contains s.ctxs id = true)
+
+/-! ### monitor -/
+
+structure Fail where
+  clause : String
+  cls    : String := ""
+  deriving Repr, Inhabited
+
+structure Mon where
+  leaked : List (Int × CtxId) := []     -- F-svc-3: new-batch entries the handler returned from without deleting
+  deriving Repr, Inhabited
+
+def markersAgreeB (q : List (Int × CtxId)) (m : AMap CtxId Int) : Bool :=
+  q.all (fun e => AMap.get? m e.2 == some e.1) && m.all (fun e => q.contains (e.2, e.1)) &&
+  -- at most one entry per context (the marker is a function of the context)
+  q.all (fun e => (q.filter (fun e' => e'.2 = e.2)).length == 1)
+
+def rateErrorAt (pre : State) (id : CtxId) : Bool :=
+  let s1 := expiredPhase pre
+  let rc := getCtx s1 id
+  rc.state = .running && (filterProviders s1 rc rc.providers [] []).isNone
+
+/-- state clauses -/
+def stateFails (m : Mon) (s : State) : List Fail :=
+  (if markersAgreeB s.newQ s.newH then [] else [{ clause := "new-batch-queue-markers" : Fail }]) ++
+  (if markersAgreeB s.expQ s.expH then [] else [{ clause := "expired-batch-queue-markers" : Fail }]) ++
+  (if s.newQ.all (fun e => decide (s.height ≤ e.1) || m.leaked.contains e) then [] else [{ clause := "new-batch-entry-in-the-past" : Fail }]) ++
+  (if s.expQ.all (fun e => decide (s.height ≤ e.1)) then [] else [{ clause := "expired-batch-entry-in-the-past" : Fail }]) ++
+  (if s.newQ.all (fun e => AMap.contains s.ctxs e.2) ∧ s.expQ.all (fun e => AMap.contains s.ctxs e.2) then []
+   else [{ clause := "queue-entry-without-context" : Fail }]) ++
+  (if s.ctxs.all (fun e => e.2.batchState != .running || AMap.contains s.expH e.1) then []
+   else [{ clause := "running-batch-awaits-expiry" : Fail }]) ++
+  (if s.ctxs.all (fun e => e.2.state != .running || AMap.contains s.expH e.1 || AMap.contains s.newH e.1) then []
+   else [{ clause := "running-context-awaits-an-event" : Fail }])
+
+/-- one monitor step -/
+def check (m : Mon) (pre : State) (op : Op) (accepted : Bool) (post : State) : Mon × List Fail :=
+  let (m1, stepFails) : Mon × List Fail :=
+    match op, accepted with
+    | .next _, true =>
+      let h := pre.height
+      let expLeft := post.expQ.filter (fun e => e.1 = h)
+      let newLeft := post.newQ.filter (fun e => e.1 = h)
+      let newLeaks := newLeft.filter (fun e => !(m.leaked.contains e))
+      let tagged := newLeaks.filter (fun e => rateErrorAt pre e.2)
+      let untagged := newLeaks.filter (fun e => !(rateErrorAt pre e.2))
+      ({ m with leaked := m.leaked ++ tagged },
+       (if expLeft.isEmpty then [] else [{ clause := "expired-batch-entry-processed-once" : Fail }]) ++
+       (tagged.map fun _ => { clause := "new-batch-entry-processed-once", cls := "F-svc-3" : Fail }) ++
+       (untagged.map fun _ => { clause := "new-batch-entry-processed-once" : Fail }) ++
+       -- entries of other heights are not touched by the handlers of this block except by scheduling
+       (if pre.expQ.all (fun e => e.1 = h || post.expQ.contains e) ∧ pre.newQ.all (fun e => e.1 = h || post.newQ.contains e)
+        then [] else [{ clause := "future-entry-lost" : Fail }]))
+    | .skip _ _, true => (m, [{ clause := "multi-block-step-not-monitorable" }])
+    | _, _ => (m, [])
+  (m1, stepFails ++ stateFails m1 post)
+
+end Irismod.Spec.C13S
